@@ -27,8 +27,15 @@ fi
 serde_part() { # mode [file]
   local HS="$VERIF_DIR/harness-serde" L="$VERIF_DIR/work/build-C05-serde.log"
   ( cd "$HS" && flock "$VERIF_DIR/work/.build20.lock" cargo build --release ) >"$L" 2>&1 || { echo "INCONCLUSIVE: serdechk does not build against /repo's current tree (see $L)"; tail -n 25 "$L"; exit 2; }
-  if [ "$1" = "--replay" ]; then timeout 300 "$HS/target/release/serdechk" C05 --replay "$2"; else VERIF_EVIDENCE_DIR="$VERIF_DIR/work" timeout 3600 "$HS/target/release/serdechk" C05 "$1"; fi
-  local rc=$?
+  ( cd "$HS" && flock "$VERIF_DIR/work/.build20.lock" cargo build ) >>"$L" 2>&1 || { echo "INCONCLUSIVE: serdechk (dev) does not build against /repo's current tree (see $L)"; tail -n 25 "$L"; exit 2; }
+  local rc
+  if [ "$1" = "--replay" ]; then
+    timeout 300 "$HS/target/release/serdechk" C05 --replay "$2"; rc=$?
+    [ $rc -eq 0 ] && { timeout 300 "$HS/target/debug/serdechk" C05 --replay "$2"; rc=$?; }
+  else
+    VERIF_EVIDENCE_SUFFIX=.dev VERIF_EVIDENCE_DIR="$VERIF_DIR/work" timeout 3600 "$HS/target/debug/serdechk" C05 "$1"; rc=$?
+    [ $rc -eq 0 ] && { VERIF_EVIDENCE_DIR="$VERIF_DIR/work" VERIF_AUX_EVIDENCE="$VERIF_DIR/work/C05.serde.dev.json" timeout 3600 "$HS/target/release/serdechk" C05 "$1"; rc=$?; }
+  fi
   if [ $rc -eq 124 ]; then echo "INCONCLUSIVE: watchdog expired (serde part)"; exit 2; fi
   if [ $rc -gt 2 ]; then echo "INCONCLUSIVE: serdechk ended abnormally (status $rc)"; exit 2; fi
   return $rc
